@@ -77,6 +77,130 @@ def test_cfg_break_continue_return():
     assert cfg.must_pass([cfg.entry], [cfg.exit], nodes) is not None
 
 
+
+def _fn(src, normalise=True):
+    from sa.core.program import set_parents, _UnpackLiteralGen, _SplatLiterals
+
+    tree = ast.parse(textwrap.dedent(src))
+    if normalise:
+        tree = _SplatLiterals().visit(_UnpackLiteralGen().visit(tree))
+    set_parents(tree)
+    return tree.body[0]
+
+
+def test_norm_unpack_literal_gen():
+    fn = _fn(
+        """
+        def f(w, h, s):
+            xv, yv = (arange(0, n, step=s) for n in (w, h))
+            return xv, yv
+        """
+    )
+    from sa.core import astq
+
+    assert astq.xnorm(fn, fn.body[-1].value) == "(arange(0, w, step=s), arange(0, h, step=s))", astq.xnorm(fn, fn.body[-1].value)
+
+
+def test_norm_splat_literals():
+    fn = _fn(
+        """
+        def f(a, b, cfg):
+            shared = (a, b)
+            kw = {"k": cfg.k}
+            return g(1, *shared, **kw)
+        """
+    )
+    assert ast.unparse(fn.body[-1].value) == "g(1, a, b, k=cfg.k)", ast.unparse(fn.body[-1].value)
+    # a pack whose operand is re-bound, or that is mutated, is left alone
+    fn = _fn(
+        """
+        def f(a, b):
+            shared = (a, b)
+            a = a + 1
+            return g(*shared)
+        """
+    )
+    assert ast.unparse(fn.body[-1].value) == "g(*shared)"
+    fn = _fn(
+        """
+        def f(a):
+            kw = {"k": a}
+            kw.update(z=1)
+            return g(**kw)
+        """
+    )
+    assert ast.unparse(fn.body[-1].value) == "g(**kw)"
+
+
+def test_expand_unrolls_literal_comprehension_and_flattens_subscripts():
+    from sa.core import astq
+
+    fn = _fn(
+        """
+        def f(x, y, hw, hh, b):
+            left = x - hw
+            top = y - hh
+            table = [(left, top), (x + hw, top)]
+            first = b[0]
+            h = first[3][1] - first[0, 1]
+            return stack([stack(e, dim=-1) for e in table], dim=-2), h
+        """
+    )
+    rv = fn.body[-1].value
+    assert astq.xnorm(fn, rv.elts[0]) == "stack([stack((x - hw, y - hh), dim=-1), stack((x + hw, y - hh), dim=-1)], dim=-2)", astq.xnorm(fn, rv.elts[0])
+    assert astq.xnorm(fn, rv.elts[1]) == "b[0, 3, 1] - b[0, 0, 1]", astq.xnorm(fn, rv.elts[1])
+
+
+def test_loop_elems_reshape_length():
+    from sa.core import astq
+
+    fn = _fn(
+        """
+        def f(pb, s, n, k):
+            total = s * n
+            pts = pb.reshape(total, k, 2)
+            for i in range(total):
+                use(pts[i : i + 1])
+        """
+    )
+    lp = fn.body[-1]
+    le = astq.loop_elems(lp, fn)
+    assert le is not None and ast.unparse(le.seq) == "pts" and le.index == "i"
+    assert le.is_elem(lp.body[0].value.args[0])
+    # a shorter range is not the whole sequence
+    fn = _fn(
+        """
+        def f(pb, s, n, k):
+            pts = pb.reshape(s * n, k, 2)
+            for i in range(s):
+                use(pts[i : i + 1])
+        """
+    )
+    assert astq.loop_elems(fn.body[-1], fn) is None
+
+
+def test_unroll_for_break_else_and_dict_builds():
+    from sa.core import astq
+
+    fn = _fn(
+        """
+        def f(name, cfg, out):
+            table = (("unet", U), ("swint", S))
+            for fam, cls in table:
+                if name.startswith(fam):
+                    setattr(cfg, fam, cls())
+                    break
+            else:
+                raise ValueError(name)
+            return {h.name: layer(h) for h, layer in zip(out.heads, out.layers)}
+        """
+    )
+    un = astq.unroll_literal_loops(fn)
+    txt = ast.unparse(un)
+    assert "cfg.unet = U()" in txt and "elif name.startswith('swint')" in txt and txt.count("raise ValueError") == 1, txt
+    b = astq.dict_builds(fn, fn.body[-1].value)
+    assert len(b) == 1 and ast.unparse(b[0].key) == "h.name" and ast.unparse(b[0].gen.iter) == "zip(out.heads, out.layers)"
+
 def main():
     tests = [v for k, v in sorted(globals().items()) if k.startswith("test_")]
     # engine tests registered by engine modules
